@@ -166,7 +166,7 @@ def run(case):
                 name = model.eff(op[1])
                 named |= name is not None
                 text, fn = update_text(op[2])
-                if op[2][0] == "move-bound":
+                if op[2][0] in ("move-bound", "move-bound-2ops"):
                     # the object is handed over as initBindings (the store writes it into the text as VALUES)
                     bound = {"o": T(op[2][3])}
                     res = sut(lambda: g.update(text, initBindings=bound))
@@ -301,6 +301,14 @@ def update_text(u):
             hit = {t for t in st_[name] if t[1] == key(T(P)) and t[2] == key(T(O))}
             st_[name] = (st_[name] - hit) | {(s, key(T(Q)), o) for s, _, o in hit}
         return f"DELETE {{ ?s {n3(P)} ?o }} INSERT {{ ?s {n3(Q)} ?o }} WHERE {{ ?s {n3(P)} ?o }}", fn
+    if k == "move-bound-2ops":
+        # the same move as a request of two operations; the initBindings restrict the WHERE of every operation of the request
+        P, Q, O = u[1], u[2], u[3]
+
+        def fn(st_, name):
+            hit = {t for t in st_[name] if t[1] == key(T(P)) and t[2] == key(T(O))}
+            st_[name] = (st_[name] | {(s, key(T(Q)), o) for s, _, o in hit}) - hit
+        return f"INSERT {{ ?s {n3(Q)} ?o }} WHERE {{ ?s {n3(P)} ?o }} ; DELETE {{ ?s {n3(P)} ?o }} WHERE {{ ?s {n3(P)} ?o }}", fn
     raise ValueError(u)
 
 
@@ -331,7 +339,7 @@ def cases(draw, tier):
                     st.tuples(st.just("deletedata"), st.lists(triple, min_size=1, max_size=2)).map(list),
                     st.tuples(st.just("deletewhere"), pattern()).map(list),
                     st.tuples(st.just("move"), st.sampled_from(pred), st.sampled_from(pred)).map(list),
-                    st.tuples(st.just("move-bound"), st.sampled_from(pred), st.sampled_from(pred), st.sampled_from(obj)).map(list))
+                    st.tuples(st.sampled_from(["move-bound", "move-bound-2ops"]), st.sampled_from(pred), st.sampled_from(pred), st.sampled_from(obj)).map(list))
     op = st.one_of(
         st.tuples(st.just("add"), gi, triple).map(list), st.tuples(st.just("add"), gi, triple).map(list),
         st.tuples(st.just("addN"), st.lists(st.tuples(gi, triple).map(list), min_size=1, max_size=4)).map(list),
